@@ -47,6 +47,12 @@ def check(ctx):
     ctx.rule("R20.6", "loop potential == mu0 I a / (pi m sqrt(r^2+a^2+2 a r sin)) [(2-m)K(m) - 2E(m)], azimuthal direction", 2)
     ctx.rule("R20.8", "post-processing functions never modify their array arguments in place (or views of them)", 20)
     ctx.rule("R20.7", "distance kernels compute the named metric; cdist dispatches (dimension, metric) exhaustively", 5)
+    ctx.rule("R20.12", "a result filled batch by batch is filled completely (the batch count is a ceiling quotient)", 1)
+    from ..effects import batched_fill_covers
+    batched_fill_covers(ctx, "R20.12", ("tdgl.solution", "tdgl.em", "tdgl.distance", "tdgl.sources"),
+                        "for more evaluation points than fit one batch (and not a multiple of the batch size) the current parts of the field / vector "
+                        "potential are exactly zero on the trailing points: the result no longer equals the Biot-Savart / Coulomb-kernel sum, and the "
+                        "value at a point depends on how many other points share the call")
     kernels(ctx)
     units(ctx)
     decomposition(ctx)
